@@ -78,6 +78,7 @@ Proof.
       destruct (snd rb); [apply sim_refl_res; exact R1|apply Hk; exact R1].
     + (* CallMacro *)
       destruct (assoc m (r_macros r)); [|apply Hk; exact R].
+      destruct (depth_exceeded r); [apply sim_refl_res; exact R|].
       apply bindL_sim; [apply IH; exact R|]. intros rb L1 L1' R1. apply Hk; exact R1.
     + (* Include *)
       destruct (mem_str s_include (r_disabled r)); [apply sim_refl_res; exact R|].
@@ -91,9 +92,11 @@ Proof.
       destruct (mem_str s_block (r_disabled r)); [apply sim_refl_res; exact R|].
       destruct (get_or [] (assoc name (r_extends r))).
       * apply bindL_sim; [apply IH; exact R|]. exact Hk.
-      * apply bindL_sim; [apply IH; exact R|]. intros rb L1 L1' R1. apply Hk; exact R1.
+      * destruct (depth_exceeded r); [apply sim_refl_res; exact R|].
+        apply bindL_sim; [apply IH; exact R|]. intros rb L1 L1' R1. apply Hk; exact R1.
     + (* RenderP *)
       apply bindL_sim; [apply load_counted_sim; exact R|]. intros t L1 L1' R1.
+      destruct (depth_exceeded r); [apply sim_refl_res; exact R1|].
       apply bindL_sim; [apply IH; exact R1|]. intros rb L2 L2' R2. apply Hk; exact R2.
 Qed.
 
